@@ -124,7 +124,11 @@ def gen_case(rng):
     format options (the declarations and prefixes must be the same) and some roots an xml:space attribute"""
     c = S.gen_case(rng)
     if rng.random() < 0.4:
-        c["fmt"] = {"align": rng.random() < 0.4, "indent": rng.choice(["", "  ", "\t"]), "width": rng.choice([0, 0, 20, 60])}
+        c["fmt"] = {"align": rng.random() < 0.4, "indent": rng.choice(["", "  ", "\t"]), "width": rng.choice([0, 0, 20, 60, 200])}
+    if rng.random() < 0.3:
+        # "in every serialization": also of a node below the root (seeded C13-8: the declarations of a subtree that fits
+        # one line dropped by the line-fitting sub-serializer)
+        c["subtree"] = rng.randrange(1000)
     if rng.random() < 0.2:
         value = rng.choice(["preserve", "preserve", "default"])
         if c["how"] == "api":
